@@ -1,0 +1,79 @@
+//go:build verif
+
+package http
+
+// Contracts for the verification harness under /verif (comment-only file).
+//
+// C11: the events handed to the pipeline are exactly the newline-separated
+// lines of the request body, however the body is chunked.
+//
+// Ghost state: body is the (decompressed) request body, cpos the absolute
+// position of readBuff[0] in it, emitted the length of the prefix of body that
+// has been handed to In as complete lines (each line counts its separator).
+
+//@ func (*Plugin).processChunk
+//@   ghost body seq
+//@   ghost cpos int
+//@   ghost emitted int
+//@   ghostout emitted
+//@   requires 0 <= cpos && cpos + len(readBuff) <= len(body)
+//@   requires seqeq(readBuff, body, cpos)
+//@   requires 0 <= emitted && emitted + len(eventBuff) == cpos
+//@   requires seqeq(eventBuff, body, emitted) && nochr(eventBuff, '\n')
+//@   requires disjoint(readBuff, eventBuff)
+//@   requires isLastChunk ==> len(readBuff) == 0 && cpos == len(body)
+//@   modifies readBuff, eventBuff[:cap(eventBuff)]
+//@   ensures  !isLastChunk ==> emitted + len(result) == cpos + len(readBuff)
+//@   ensures  !isLastChunk ==> seqeq(result, body, emitted) && nochr(result, '\n')
+//@   ensures  !isLastChunk ==> disjoint(result, readBuff)
+//@   ensures  isLastChunk ==> emitted >= len(body)
+//@   ensures  emitted >= old(emitted)
+//@   loop 1 invariant 0 <= nlPos && nlPos <= pos && pos <= len(readBuff)
+//@   loop 1 invariant seqeq(readBuff[nlPos:], body, cpos+nlPos)
+//@   loop 1 invariant nochr(readBuff[nlPos:pos], '\n')
+//@   loop 1 invariant emitted + len(eventBuff) == cpos + nlPos && emitted >= old(emitted)
+//@   loop 1 invariant nlPos > 0 ==> len(eventBuff) == 0
+//@   loop 1 invariant seqeq(eventBuff, body, emitted) && nochr(eventBuff, '\n')
+//@   loop 1 invariant disjoint(readBuff, eventBuff)
+//@   loop 1 invariant eventBuff == old(eventBuff) || fresh(eventBuff) || (len(eventBuff) == 0 && within(eventBuff, old(eventBuff)))
+//@   callee In(sourceID, sourceName, offsets, data, isNewSource, meta)
+//@     requires 0 <= emitted && emitted + len(data) <= len(body)
+//@     requires seqeq(data, body, emitted) && nochr(data, '\n')
+//@     requires emitted + len(data) == len(body) || body[emitted + len(data)] == '\n'
+//@     modifies data
+//@     set emitted := emitted + len(data) + 1
+
+// processBulk: r delivers the ghost sequence body; rpos is the reader position.
+// Read's clause is the meaning of io.Reader (the body is, by definition, what
+// the reader delivers before it reports EOF).  The two buffer constructors hand
+// out buffers owned by this request (sync.Pool ownership: trusted).
+
+//@ func (*Plugin).processBulk
+//@   ghost body seq
+//@   ghost rpos int = 0
+//@   ghost emitted int = 0
+//@   ghostout emitted
+//@   bind processChunk cpos := rpos - len(readBuff)
+//@   ensures result == nil ==> emitted >= len(body)
+//@   loop 1 invariant 0 <= rpos && rpos <= len(body) && 0 <= emitted
+//@   loop 1 invariant emitted + len(eventBuff) == rpos
+//@   loop 1 invariant seqeq(eventBuff, body, emitted) && nochr(eventBuff, '\n')
+//@   loop 1 invariant disjoint(readBuff, eventBuff) && len(readBuff) == old_len
+//@   ghost old_len int
+//@   callee newReadBuff()
+//@     pure
+//@     set old_len := len(result)
+//@   callee newEventBuffs()
+//@     pure
+//@     ensures len(result) == 0 && !sameblock(result, readBuff)
+//@   callee Read(b) (n, err)
+//@     modifies b
+//@     ensures 0 <= n && n <= len(b)
+//@     ensures rpos == old(rpos) + n && rpos <= len(body)
+//@     ensures seqeq(b[:n], body, old(rpos))
+//@     ensures n == 0 && err == io.EOF ==> rpos == len(body)
+//@     ghostout rpos
+//@   callee getSourceID()
+//@     pure
+//@   callee putSourceID(x)
+//@     pure
